@@ -294,6 +294,49 @@ fn run_seq<E: El>(seq: &[Kind], extended: bool, ctx: &mut Ctx) {
     }
 }
 
+/// Unknown members with awkward names and values, at every position of an otherwise consistent document:
+/// names of every byte length 0..=70 (ASCII, and with a 2-, 3- or 4-byte character or an escape straddling
+/// every byte offset), near-misses of the real field names, values of every JSON type including nested ones.
+fn run_unknown<E: El>(ctx: &mut Ctx) {
+    let mut names: Vec<String> = Vec::new();
+    for p in 0..=70usize {
+        names.push("a".repeat(p));
+        for ch in ["\\u00e9", "\\u20ac", "\\ud83d\\ude00", "\u{e9}", "\u{20ac}", "\u{1f600}"] {
+            for q in [0usize, 40] {
+                names.push(format!("{}{}{}", "a".repeat(p), ch, "b".repeat(q)));
+            }
+        }
+    }
+    for n in ["num_col", "num_cols ", "NUM_COLS", "num_rows\\u0000", "dat", "data ", "\\\"data\\\"", "\\\\", "num_cols\\u0000num_rows"] {
+        names.push(n.to_string());
+    }
+    let values = ["1", "\"x\"", "null", "[1,[2,[3]]]", "{\"a\":{\"num_cols\":[1]}}", "1e400", "-0.0"];
+    let one = E::make(0);
+    let members = ["\"num_cols\":1".to_string(), "\"num_rows\":1".to_string(), format!("\"data\":[{}]", one.json())];
+    for name in &names {
+        for (vi, value) in values.iter().enumerate() {
+            // every value for the short names and the names around 32 bytes, the first value for every name
+            if vi > 0 && name.len() > 3 && !(31..=36).contains(&name.len()) {
+                continue;
+            }
+            for pos in 0..=3usize {
+                let mut parts: Vec<String> = members.to_vec();
+                parts.insert(pos, format!("\"{}\":{}", name, value));
+                let text = format!("{{{}}}", parts.join(","));
+                let doc: Doc<E> = Doc { text: text.clone(), cols: vec![1], rows: vec![1], datas: vec![vec![one.clone()]] };
+                ctx.case(
+                    || format!("TooDee<{}> from {}", E::NAME, text),
+                    |cs| {
+                        cs.outcome("rejected");
+                        cs.nontrivial((E::NAME, &doc.text));
+                        check_doc(&doc, cs);
+                    },
+                );
+            }
+        }
+    }
+}
+
 fn run_toplevel<E: El>(ctx: &mut Ctx) {
     for text in ["[2,3,[1,2,3,4,5,6]]", "[]", "5", "\"x\"", "null", "true", "", "{", "{\"num_cols\":", "{\"num_cols\":1,\"num_rows\":1,\"data\":[1]", "[{\"num_cols\":0,\"num_rows\":0,\"data\":[]}]", "{\"num_cols\":1,\"num_rows\":1,\"data\":[1]} trailing"] {
         let doc: Doc<E> = Doc { text: text.to_string(), cols: Vec::new(), rows: Vec::new(), datas: Vec::new() };
@@ -330,6 +373,7 @@ impl Prop for C19P {
                 }
             }
             v.push(format!("{} toplevel", e));
+            v.push(format!("{} unknown", e));
         }
         v
     }
@@ -340,6 +384,14 @@ impl Prop for C19P {
                 "u32" => run_toplevel::<u32>(ctx),
                 "unit" => run_toplevel::<()>(ctx),
                 _ => run_toplevel::<String>(ctx),
+            }
+            return;
+        }
+        if rest == "unknown" {
+            match e {
+                "u32" => run_unknown::<u32>(ctx),
+                "unit" => run_unknown::<()>(ctx),
+                _ => run_unknown::<String>(ctx),
             }
             return;
         }
@@ -362,7 +414,7 @@ impl Prop for C19P {
         }
     }
     fn rule(&self) -> String {
-        "documents are JSON objects whose member list is ANY sequence (every subset, order and duplication) of up to L members drawn from num_cols:V, num_rows:V, data:D and an unknown member; \
+        "documents are JSON objects whose member list is ANY sequence (every subset, order and duplication) of up to L members drawn from num_cols:V, num_rows:V, data:D and an unknown member; additionally an unknown member whose name has every byte length 0..=70 (ASCII, or with a 2-/3-/4-byte character, literal or escaped, at every offset) or nearly equals a field name, with values of every JSON type (nested ones too), inserted at every position of a consistent document; \
          V = {0,1,2,3,2^32,2^64-1,2^64,-1,1.5,-1.0,\"2\",null} (thorough repeats all documents of up to 4 members with 2^63, true, [], 2.0 added); D = arrays of every length in {p-1,p,p+1,0} around the stated product p, arrays with one wrong-typed element, and non-arrays (5, \"x\", null, {}); element types u32, String and the zero-sized (); plus non-object and truncated top levels; \
          each document goes through all four transports (from_str, from_slice, from_reader, from_value). Oracle: no panic; Err, or Ok(t) where t satisfies the shape invariant, t's dimensions are values stated for those fields in the document and t's cells are a data member of the document (hence never an overflowing, mismatching or one-zero document). \
          A case is one document (x 4 transports); non-trivial = the document states all three fields; distinct by document text."
